@@ -128,21 +128,21 @@ def e2e_cases(prop, tier, rng):
     if prop == 'C01':
         fm = ('f64',)
         cs = g_rand(rng, 2500 * k, fm) + g_mid(rng, 2500 * k, fm) + [c for c in g_fast(rng, 400 * k) if c.fmt == 'f64'] + \
-            g_seam(rng, 300 * k, fm) + g_ext(rng, 300 * k, fm, big) + g_sub(rng, 400 * k, fm) + g_trunc(rng, 300 * k, fm) + nt_pf_cases('f64', rng, scale(tier, 3, 30)) + tie_pf_cases('f64', rng, scale(tier, 12, 100))
+            g_seam(rng, 300 * k, fm) + g_ext(rng, 300 * k, fm, big) + g_sub(rng, 400 * k, fm) + g_trunc(rng, 300 * k, fm) + nt_pf_cases('f64', rng, scale(tier, 3, 30)) + tie_pf_cases('f64', rng, scale(tier, 12, 100)) + g_dec(rng, fm, scale(tier, 500, 20000))
     elif prop == 'C02':
         fm = ('f32',)
         cs = g_rand(rng, 2500 * k, fm) + g_mid(rng, 3000 * k, fm) + [c for c in g_fast(rng, 400 * k) if c.fmt == 'f32'] + \
-            g_seam(rng, 300 * k, fm) + g_ext(rng, 300 * k, fm, big) + g_sub(rng, 400 * k, fm) + g_trunc(rng, 300 * k, fm) + nt_pf_cases('f32', rng, scale(tier, 8, 60)) + tie_pf_cases('f32', rng, scale(tier, 12, 100))
+            g_seam(rng, 300 * k, fm) + g_ext(rng, 300 * k, fm, big) + g_sub(rng, 400 * k, fm) + g_trunc(rng, 300 * k, fm) + nt_pf_cases('f32', rng, scale(tier, 8, 60)) + tie_pf_cases('f32', rng, scale(tier, 12, 100)) + g_dec(rng, fm, scale(tier, 500, 20000))
     elif prop == 'C04':
         cs = g_seam(rng, 600 * k) + g_ext(rng, 1200 * k, big=big) + g_rand(rng, 2000 * k) + g_sub(rng, 300 * k) + g_mid(rng, 600 * k) + g_long(rng, scale(tier, 6, 40), big)
     elif prop == 'C05':
-        cs = g_rand(rng, 2500 * k) + g_mid(rng, 2500 * k) + g_fast(rng, 300 * k) + g_seam(rng, 200 * k) + g_ext(rng, 200 * k) + g_sub(rng, 300 * k) + g_trunc(rng, 300 * k)
+        cs = g_rand(rng, 2500 * k) + g_mid(rng, 2500 * k) + g_fast(rng, 300 * k) + g_seam(rng, 200 * k) + g_ext(rng, 200 * k) + g_sub(rng, 300 * k) + g_trunc(rng, 300 * k) + g_dec(rng, extra=scale(tier, 500, 20000)) + tie_pf_cases('f64', rng, scale(tier, 6, 60)) + tie_pf_cases('f32', rng, scale(tier, 6, 60))
     elif prop == 'C06':
         cs = g_mid(rng, 3500 * k, deep=(20, 21, 40, 100, 400, 767, 768, 769, 770, 771, 1000, 5000)) + g_trunc(rng, 1500 * k) + \
             [c for c in g_seam(rng, 600 * k)] + g_long(rng, scale(tier, 8, 60), big)
         cs = [c for c in cs if len((c.i + c.f).lstrip('0')) >= 20]
     elif prop == 'C07':
-        cs = g_sub(rng, 2500 * k) + g_ext(rng, 1500 * k, big=big) + g_mid(rng, 1500 * k, edge_only=True) + zero_sig_cases(rng, 100 * k)
+        cs = g_sub(rng, 2500 * k) + g_ext(rng, 1500 * k, big=big) + g_mid(rng, 1500 * k, edge_only=True) + zero_sig_cases(rng, 100 * k) + [c for c in g_dec(rng) if abs(c.e) > (280 if c.fmt == 'f64' else 30)]
     return cs
 
 
@@ -315,6 +315,15 @@ def check_c03(res, tier, rng):
             bl.append((e << F['ms']) | rng.bits(F['ms']))
             bl.append((e << F['ms']))
             bl.append((e << F['ms']) | ((1 << F['ms']) - 1))
+        # the floats nearest to d x 10^k for every decade (their shortest rendering is the one-digit
+        # decimal: top decade 1e308 / 1e38, bottom decades, every algorithm limit) and to 2^k
+        klo, khi = (-324, 308) if fmt == 'f64' else (-46, 38)
+        for kk in range(klo, khi + 1):
+            for dd in (1, 2, 3, 5, 9):
+                bl.append(rn_decimal(fmt, str(dd), '', kk))
+        # floats whose shortest rendering is short: nearest floats of m x 10^q, m of 1-7 digits
+        for _ in range(n // 3):
+            bl.append(rn_decimal(fmt, str(rng.range(1, 10 ** rng.range(1, 7))), '', rng.range(klo, khi)))
         bl = [b for b in bl if b <= max_finite(fmt)]
         rend = render_floats(fmt, bl)
         for b, r in zip(bl, rend):
@@ -474,6 +483,11 @@ def model_mismatches(run):
 def g_split(rng, n, fmts=('f64', 'f32')):
     groups = []
     base = g_mid(rng, n // 2, fmts) + g_rand(rng, n // 4, fmts, maxlen=100) + g_seam(rng, n // 8, fmts) + g_sub(rng, n // 8, fmts)
+    # short exact ties for every exponent of the round-to-even window (their spellings with digits
+    # moved between significand and exponent reach different q), and one-digit decimals
+    for fmt in fmts:
+        base += [c for c in tie_pf_cases(fmt, rng, max(2, n // 800)) if c.fam == 'G-TIE']
+    base += [c for c in g_dec(rng, fmts) if rng.below(12) == 0]
     for c in base:
         s = (c.i + c.f)
         if not s.strip('0') or not is_valid(c.i, c.f, c.e):
@@ -496,6 +510,9 @@ def g_split(rng, n, fmts=('f64', 'f32')):
         # digits moved into the exponent (trailing zeros as integer digits)
         if E > 0 and E < 40:
             g.append(PF(c.fmt, s + '0' * E, '', 0, 'G-SPLIT/int0'))
+        if E > 0:
+            zz = rng.range(1, min(E, 25))
+            g.append(PF(c.fmt, s + '0' * zz, '', E - zz, 'G-SPLIT/int0part'))
         if len(g) >= 2:
             groups.append(g)
     return groups
